@@ -97,8 +97,7 @@ def utcHuge (args : List FV) : Bool :=
   let integer := trunc year
   let year := if le zero integer && le integer (.fin false 99 0) then add (.fin false 1900 0) integer else year
   (args.take 7).all (fun x => (Spec.field? x).isSome) &&
-  tooLarge year (get 1 zero) (get 2 one) (get 3 zero) (get 4 zero) (get 5 zero) (get 6 zero) &&
-  (Spec.dateUTC args).isSome
+  tooLarge year (get 1 zero) (get 2 one) (get 3 zero) (get 4 zero) (get 5 zero) (get 6 zero)
 
 def setterHuge (k : Setter) (d : DateObj) (tv : Spec.TV) (args : List FV) : Bool :=
   if k = .time then false else
@@ -133,7 +132,15 @@ def devList (ds : List String) : String :=
 
 def reply (m s : String) (dev : String) : String := m ++ " " ++ s ++ " " ++ dev
 
-def handle (ws : List String) : String :=
+/-- the optional leading `z:<zone>` token names the host zone (time.Local) the request runs under -/
+def splitZone (ws : List String) : String × List String :=
+  match ws with
+  | w :: rest => if w.startsWith "z:" then ((w.drop 2).toString, rest) else ("UTC", ws)
+  | [] => ("UTC", [])
+
+/-- requests whose meaning does not involve the host zone at all: the zone token is dropped before they are
+    interpreted, so neither model nor spec can depend on it -/
+def handleUTC (ws : List String) : String :=
   match ws with
   | ["obs", a] => match f64? a with
     | some v => reply (obsModel (newDate v)) (obsSpec (Spec.clipNumber v)) noDev
@@ -158,15 +165,7 @@ def handle (ws : List String) : String :=
   | "utc" :: as => match as.mapM f64? with
     | some args =>
       if args.length < 2 then "bad-op" else
-      reply (numOut (newDateTime args)) (numOut (Spec.dateUTC args)) (if utcHuge args then "huge_field_cancel" else "-")
-    | none => "bad-op"
-  | "ctor" :: as => match as.mapM f64? with
-    | some args =>
-      if args.length < 2 then "bad-op" else
-      let m := match newDateTime args with
-        | some i => newDate (ofInt i)
-        | none => newDate .nan
-      reply (obsModel m) (obsSpec (Spec.dateUTC args)) (if utcHuge args then "huge_field_cancel" else "-")
+      reply (numOut (newDateTime args)) (numOut (Spec.dateUTC args)) (if utcHuge args && (Spec.dateUTC args).isSome then "huge_field_cancel" else "-")
     | none => "bad-op"
   | "set" :: a :: steps => match f64? a, steps.mapM step? with
     | some v, some hs =>
@@ -189,9 +188,182 @@ def handle (ws : List String) : String :=
       let (mo, ml) := newDateTimeS args
       let (so, sl) := Spec.dateUTCS (args.map toSpecArg)
       let threw := (args.take 7).any (fun x => x.val?.isNone)
-      let dev := if !threw && utcHuge (argVals args) then ["huge_field_cancel"] else []
+      let dev := if !threw && utcHuge (argVals args) && (Spec.dateUTC ((argVals args).take 7)).isSome then ["huge_field_cancel"] else []
       reply (logOut ml ++ ":" ++ outcomeOut mo) (logOut sl ++ ":" ++ outcomeOutS so) (devList dev)
     | none => "bad-op"
   | _ => "bad-op"
+
+def zone? : String → Option (Zone × Spec.Zone)
+  | "UTC" => some (.fixed 0, .fixed 0)
+  | "F+0530" => some (.fixed 19800, .fixed 19800)
+  | "F-0330" => some (.fixed (-12600), .fixed (-12600))
+  | "F+1400" => some (.fixed 50400, .fixed 50400)
+  | "F-1200" => some (.fixed (-43200), .fixed (-43200))
+  | "F+0545" => some (.fixed 20700, .fixed 20700)
+  | "FXYZ" => some (.fixed 19800, .fixed 19800)      -- FixedZone("XYZ", 19800): an abbreviation ending in Z
+  | "NY" => some (.ny, .us2007)
+  | "LON" => some (.lon, .eu1996)
+  | _ => none
+
+def lsetterM? : String → Option LSetter
+  | "Milliseconds" => some .ms | "Seconds" => some .sec | "Minutes" => some .min | "Hours" => some .hour
+  | "Date" => some .date | "Month" => some .month | "FullYear" => some .year | "Year" => some .year2 | _ => none
+
+def toSpecLSetter : LSetter → Spec.LSetter
+  | .ms => .ms | .sec => .sec | .min => .min | .hour => .hour | .date => .date | .month => .month | .year => .year | .year2 => .year2
+
+def lstep? (w : String) : Option (LSetter × List FV) :=
+  match w.splitOn ":" with
+  | [k, a] => do
+    let k ← lsetterM? k
+    let as ← if a.isEmpty then some [] else (a.splitOn ",").mapM f64?
+    pure (k, as)
+  | _ => none
+
+/-- region local_transition_hour: the local time value handed to UTC(·) lies within the hour after a daylight
+    transition (in standard-time terms): the skipped or repeated hour, where Go's time.Date and §15.9.1.9 differ -/
+def transitionHour (z : Spec.Zone) (tl : Int) : Bool :=
+  let x := tl - Spec.LocalTZA z
+  Spec.DaylightSavingTA z x != Spec.DaylightSavingTA z (x - 3600000)
+
+def localRaw (z : Spec.Zone) (k : Spec.LSetter) (tv : Spec.TV) (args : List FV) : Option Int :=
+  let args := args.take k.arity
+  let loc : Spec.TV := match tv with
+    | some t => some (Spec.LocalTime z t)
+    | none => if k = .year ∨ k = .year2 then some 0 else none
+  match k with
+  | .year2 => match loc, Spec.argOr args 0 0 with
+    | some t, some y => some (Spec.MakeDate (Spec.MakeDay (Spec.fullYear y) (Spec.MonthFromTime t) (Spec.DateFromTime t)) (Spec.TimeWithinDay t))
+    | _, _ => none
+  | _ => Spec.setUTCRaw k.base loc args
+
+def localDev (z : Zone) (sz : Spec.Zone) (k : LSetter) (d : DateObj) (tv : Spec.TV) (args : List FV) : List String :=
+  let raw := localRaw sz (toSpecLSetter k) tv args
+  let d1 := match raw with
+    | some tl => if transitionHour sz tl then ["local_transition_hour"] else []
+    | none => []
+  let d2 := if k = .year2 ∧ d.isNaN ∧ raw.isSome then ["setyear_invalid"] else []
+  let as := args.take k.limit
+  let d3 := match (if as.isEmpty then none else numberArgs as) with
+    | none => []
+    | some vs =>
+      if d.isNaN ∧ k ≠ .year then [] else
+      let base := if d.isNaN then newDate (ofInt (z.dateToUnix 0 * 1000)) else d
+      let vs := match k, vs with
+        | .year2, [y] => [if 0 ≤ y ∧ y ≤ 99 then y + 1900 else y]
+        | _, vs => vs
+      let e := applySetter k.base (newEcmaTime (z.wall base.time)) vs
+      if tooLarge (ofInt e.year) (ofInt e.month) (ofInt e.day) (ofInt e.hour) (ofInt e.minute) (ofInt e.second) (ofInt e.millisecond)
+         && (Spec.setLocal sz (toSpecLSetter k) tv args).isSome then ["huge_field_cancel"] else []
+  d1 ++ d2 ++ d3
+
+def runLocalDev (z : Zone) (sz : Spec.Zone) (d : DateObj) (tv : Spec.TV) : List (LSetter × List FV) → List String → List String
+  | [], devs => devs
+  | (k, a) :: rest, devs =>
+    runLocalDev z sz (setLocal z k d a).1 (Spec.setLocal sz (toSpecLSetter k) tv a) rest (devs ++ localDev z sz k d tv a)
+
+def obsLocalModel (z : Zone) (d : DateObj) : String := join ((observeLocal z d).map numOut)
+def obsLocalSpec (z : Spec.Zone) (tv : Spec.TV) : String := join ((Spec.observeLocal z tv).map numOut)
+
+def prim? : String → Option (Prim × Spec.Prim)
+  | "num" => some (.numFinite, .numFinite) | "nan" => some (.numNaN, .numNaN) | "inf" => some (.numInf, .numInf)
+  | "str" => some (.strNonNumeric, .strNonNumeric) | "strnum" => some (.strNumeric, .strNumeric)
+  | "undef" => some (.undef, .undef) | "true" => some (.boolTrue, .boolTrue) | _ => none
+
+def jsonOut : JsonOut → String | .null => "null" | .called => "called" | .typeError => "throw:TypeError"
+def jsonOutS : Spec.JsonOut → String | .null => "null" | .called => "called" | .typeError => "throw:TypeError"
+
+/-- the fields of `YYYY-MM-DDTHH:mm[:ss[.sss]](Z|±HH:mm)` (syntax only) -/
+def familyFields (s : List Nat) : Option (Int × Int × Int × Int × Int × Int × Int × Int × Int × Int) := do
+  let (y, s) ← digitsN 4 s
+  let s ← expectByte 45 s
+  let (mo, s) ← digitsN 2 s
+  let s ← expectByte 45 s
+  let (dd, s) ← digitsN 2 s
+  let s ← expectByte 84 s
+  let (hh, s) ← digitsN 2 s
+  let s ← expectByte 58 s
+  let (mi, s) ← digitsN 2 s
+  let (ss, ms, s) ← parseSecFrac s
+  let (sg, oh, om) ← parseZoneDesignator s
+  pure (y, mo, dd, hh, mi, ss, ms, sg, oh, om)
+
+/-- requests that involve local time: the zone is a parameter of model and spec -/
+def boolTok (b : Bool) : String := if b then "true" else "false"
+
+def handleLocal (z : Zone) (sz : Spec.Zone) (abbrevZ : Bool) (ws : List String) : Option String :=
+  match ws with
+  | ["lobs", a] => match f64? a with
+    | some v => some (reply (obsLocalModel z (newDate v)) (obsLocalSpec sz (Spec.clipNumber v)) noDev)
+    | none => some "bad-op"
+  | "lset" :: a :: steps => match f64? a, steps.mapM lstep? with
+    | some v, some hs =>
+      let (df, rs) := runLocalSetters z (newDate v) hs
+      let (tf, ss) := Spec.runLocalSetters sz (Spec.clipNumber v) (hs.map (fun s => (toSpecLSetter s.1, s.2)))
+      let devs := runLocalDev z sz (newDate v) (Spec.clipNumber v) hs []
+      some (reply (join (rs.map numOut) ++ "|" ++ obsModel df ++ "|" ++ obsLocalModel z df)
+                  (join (ss.map numOut) ++ "|" ++ obsSpec tf ++ "|" ++ obsLocalSpec sz tf) (devList devs))
+    | _, _ => some "bad-op"
+  | "ctor" :: as => match as.mapM f64? with
+    | some args =>
+      if args.length < 2 then some "bad-op" else
+      let m := match newDateTimeIn z args with
+        | some i => newDate (ofInt i)
+        | none => newDate .nan
+      let d1 := match Spec.dateUTCRaw args with
+        | some tl => if transitionHour sz tl then ["local_transition_hour"] else []
+        | none => []
+      let d2 := if utcHuge args && (Spec.dateLocal sz args).isSome then ["huge_field_cancel"] else []
+      some (reply (obsModel m) (obsSpec (Spec.dateLocal sz args)) (devList (d1 ++ d2)))
+    | none => some "bad-op"
+  | ["rts", a] => match f64? a with
+    | some v =>
+      let tv := Spec.clipNumber v
+      let yr : Int := match tv with | some t => Spec.YearFromTime (Spec.LocalTime sz t) | none => 0
+      let dev := (if abbrevZ ∧ tv.isSome then ["zone_abbrev_z"] else []) ++
+                 (if tv.isSome ∧ ¬ (0 ≤ yr ∧ yr ≤ 9999) then ["rfc1123_year_range"] else [])
+      some (reply (numOut (parseOfToString z abbrevZ (newDate v))) (numOut (Spec.parseOfUTCString tv)) (devList dev))
+    | none => some "bad-op"
+  | ["datefn"] =>
+    some (reply (boolTok (dateFunctionAgrees false)) "true" "date_function_utc")
+  | _ => none
+
+def handleMisc (ws : List String) : Option String :=
+  match ws with
+  | ["rtu", a] => match f64? a with
+    | some v =>
+      let tv := Spec.clipNumber v
+      let yr : Int := match tv with | some t => Spec.YearFromTime t | none => 0
+      let dev := if tv.isSome ∧ ¬ (0 ≤ yr ∧ yr ≤ 9999) then ["rfc1123_year_range"] else []
+      some (reply (numOut (parseOfUTCString (newDate v))) (numOut (Spec.parseOfUTCString tv)) (devList dev))
+    | none => some "bad-op"
+  | ["tojson", p, c] => match prim? p with
+    | some (mp, sp) =>
+      let callable := c = "1"
+      let dev := if mp = .strNonNumeric ∨ mp = .undef then ["tojson_nonnumber_primitive"] else []
+      some (reply (jsonOut (toJSONGeneric mp callable)) (jsonOutS (Spec.toJSONGeneric sp callable)) (devList dev))
+    | none => some "bad-op"
+  | ["parse", hx] => match bytes? hx with
+    | some bs => match dateParseFamily bs, familyFields bs with
+      | some m, some (y, mo, dd, hh, mi, ss, ms, sg, oh, om) =>
+        let sp := Spec.parseFields y mo dd hh mi ss ms sg oh om
+        let dev := (if hh = 24 ∧ sp.isSome then ["parse_hour_24"] else []) ++
+                   (if om = 60 ∧ (Spec.parseFields y mo dd hh mi ss ms sg oh 0).isSome then ["parse_offset_minute_60"] else [])
+        some (reply (numOut m) (numOut sp) (devList dev))
+      | _, _ => some "bad-op"
+    | none => some "bad-op"
+  | _ => none
+
+def handle (ws : List String) : String :=
+  let (zone, req) := splitZone ws
+  match handleMisc req with
+  | some r => r
+  | none =>
+  let abbrevZ := zone = "FXYZ"
+  match zone? zone with
+  | none => "bad-zone"
+  | some (z, sz) => match handleLocal z sz abbrevZ req with
+    | some r => r
+    | none => handleUTC req
 
 end OttoVerif.C12.Driver
